@@ -22,7 +22,7 @@ CORR_HEADER = ("From Coq Require Import ZArith QArith List String.\n"
                "Open Scope string_scope.\nOpen Scope Q_scope.\n")
 CHECK_FN = "check_c08"
 SHARD = 20
-RULE = ("[wave 6: in-simulator infrastructure taken from the EVSE objects / the harness' own constraint record and compared with Interface.infrastructure_info() at every call; sessions whose own minimum rate exceeds the remaining demand] [checklist families: object reuse, interleaved instances, caller-owned data frozen/vandalised, odd ids and dtypes, mid-run JSON round trip, constraint mutations between calls, odd periods/increments, interrupted+resumed runs, second process with another hash seed, direct entry points] C07 unit generator restricted to sessions with DISTINCT priority keys for the chosen order (equal keys are counted as "
+RULE = ("[wave 7: finite-rate level tables without 0 whose lowest level exceeds the head-room left by higher-priority grants; direct discrete_max_feasible_rate calls on such lists] [wave 6: in-simulator infrastructure taken from the EVSE objects / the harness' own constraint record and compared with Interface.infrastructure_info() at every call; sessions whose own minimum rate exceeds the remaining demand] [checklist families: object reuse, interleaved instances, caller-owned data frozen/vandalised, odd ids and dtypes, mid-run JSON round trip, constraint mutations between calls, odd periods/increments, interrupted+resumed runs, second process with another hash seed, direct entry points] C07 unit generator restricted to sessions with DISTINCT priority keys for the chosen order (equal keys are counted as "
         "skipped, kind 'tie-skipped'): unequal voltages / max pilots / limits so that laxity and processing-time orders differ "
         "from arrival order, several constraints binding at once, continuous and finite-rate EVSEs, all five orders x "
         "{greedy, round robin} x estimator x uninterrupted x increments. Compared: everything C07 compares (schedule, order, "
